@@ -42,7 +42,11 @@ def gen_cases(tier, seed):
                     if r % 2 == 1 and rng.random() < 0.7:
                         # a time axis far from the origin: one ulp of t is then far above the absolute 4*eps the root finder starts from
                         t0 += float(rng.choice([-1, 1])) * float(10 ** rng.uniform(1.5, 3.2))
-                    cases.append(dict(method=name, direction=d, dense=dense, t0=t0, tf=t0 + d * L, nsteps=float(rng.uniform(20, 50)),
+                    rdt = rng.random()
+                    dtn = "float64" if rdt < 0.7 else ("float32" if rdt < 0.85 or not info["explicit"] else "longdouble")
+                    if abs(t0) > 20:
+                        dtn = "float64"
+                    cases.append(dict(method=name, direction=d, dense=dense, dtype=dtn, t0=t0, tf=t0 + d * L, nsteps=float(rng.uniform(20, 50)),
                                       nterm=int(rng.integers(1, 4)), nnon=int(rng.integers(0, 4)), inf=bool(rng.random() < 0.2),
                                       cont=str(rng.choice(["plain", "to_mid", "second_terminal", "plain"])), pseed=int(rng.integers(1 << 30)),
                                       cost=(2 if info["explicit"] else 14)))
@@ -64,8 +68,9 @@ def run_case(spec):
     dim = 2
     prob = Manufactured(dim, spec["pseed"], direction=d, freq=(1.0, 3.0))
     rng = rng_for(902, spec["pseed"])
-    dt_ = np.dtype("float64")
-    eps = float(np.finfo(dt_).eps)
+    from vf.problems import dtype_of
+    dt_ = dtype_of(spec.get("dtype", "float64"))
+    eps = max(float(np.finfo(dt_).eps), 2.3e-16)
     kinds = ["component", "linear", "time", "norm2"]
     tspecs = [random_event_spec(rng, prob, t0, t0 + 0.8 * (tf - t0), dim, terminal=True, kinds=kinds, scale_decades=(-4, 4)) for _ in range(spec["nterm"])]
     nspecs = [random_event_spec(rng, prob, t0, tf, dim, terminal=False, kinds=kinds, scale_decades=(-4, 4)) for _ in range(spec["nnon"])]
@@ -92,7 +97,12 @@ def run_case(spec):
     y0c = y0.copy()
     L = abs(tf - t0)
     rt_ = 1e-7 if info["order"] > 2 else 1e-5
-    system = sysrun.make_system(f, y0, t0, tf, L / spec["nsteps"], info["cls"], dense=spec["dense"], rtol=rt_, atol=rt_ * 1e-2)
+    teps_ = None
+    if spec.get("dtype") == "float32":
+        rt_ = 1e-4
+        # implicit methods carry float64 increments inside a float32 run: piece end points agree with the recorded times to rounding only
+        teps_ = float(np.finfo(np.float32).eps) if not info["explicit"] else None
+    system = sysrun.make_system(f, y0, t0, tf, dt_.type(L / spec["nsteps"]), info["cls"], dense=spec["dense"], rtol=rt_, atol=rt_ * 1e-2)
     target = (np.inf * d) if spec["inf"] else None
     import warnings
     trace = DetectionTrace()
@@ -164,6 +174,8 @@ def run_case(spec):
         rec.violate("terminal_not_stopped", "status_not_terminated_by_event", feats, status=system.integration_status, t_last=float(t[-1]), expected=tr, event=evT.spec)
         return rec.out()
     rec.bump("terminal_landings")
+    if spec.get("dtype", "float64") != "float64":
+        rec.bump("landings_in_" + spec["dtype"])
     if abs(t0) > 20:
         rec.bump("landings_far_from_time_origin")
     rec.nontrivial = True
@@ -231,10 +243,10 @@ def run_case(spec):
     # (e) C03 segment invariants for the stop (target = event time): nothing beyond, monotone, paired, first row = y0
     if len(t) >= 3 and abs(float(t[-1]) - float(t[-2])) < abs(float(t[-2]) - float(t[-3])) * 0.999 or len(t) > 2:
         rec.bump("landings_with_substeps")
-    sysrun.segment_invariants(rec, system, seg, te, feats, y0_copy=y0c, clause_prefix="prefix_")
+    sysrun.segment_invariants(rec, system, seg, np.asarray(evs[-1].t, dtype=np.longdouble), feats, y0_copy=y0c, clause_prefix="prefix_")
     if spec["dense"]:
         rec.bump("dense_checked_after_stop")
-        sysrun.dense_structure(rec, system, feats, expect_times=t, clause_prefix="prefix_")
+        sysrun.dense_structure(rec, system, feats, expect_times=t, clause_prefix="prefix_", time_eps=teps_)
         sol = system.sol
         for q in np.linspace(float(t[0]), float(t[-1]), 25):
             v = np.asarray(sol(np.asarray(q)), dtype=np.longdouble)
@@ -295,7 +307,7 @@ def run_case(spec):
     if info["adaptive"] and node2 > 2000 * (rt_ * 1e-2 + rt_ * (1 + ymax)):
         rec.violate("continuation_accuracy", "states_of_continuation_inaccurate", f2, err=node2)
     if spec["dense"]:
-        sysrun.dense_structure(rec, system, f2, expect_times=t2, clause_prefix="continuation_")
+        sysrun.dense_structure(rec, system, f2, expect_times=t2, clause_prefix="continuation_", time_eps=teps_)
         sol = system.sol
         h2 = float(np.max(np.abs(np.diff(t2))))
         nodeall = max(node, node2)
